@@ -49,7 +49,16 @@ def execute(job):
     base = os.path.join(W.scratch_base(), str(job["prop"]), str(job["seed"]), str(job.get("variant", 0)))
     os.makedirs(os.path.dirname(base), exist_ok=True)
     lock = open(base + ".lock", "w")
-    fcntl.flock(lock, fcntl.LOCK_EX)
+    deadline = time.monotonic() + 180
+    while True:
+        try:
+            fcntl.flock(lock, fcntl.LOCK_EX | fcntl.LOCK_NB)
+            break
+        except OSError:
+            if time.monotonic() > deadline:
+                lock.close()
+                raise RuntimeError(f"scratch world {base} is locked by another process for more than 180 s")
+            time.sleep(0.2)
     try:
         paths = W.build(job["world"], base)
         snap, _ = W.snapshot(paths)
@@ -86,7 +95,21 @@ def execute(job):
             pass
 
 
+def die_with_parent():
+    """Ask the kernel to kill this process when its parent dies (PR_SET_PDEATHSIG), so that a killed check never
+    leaves executors, command children or pool workers behind (they could hold scratch locks for ever)."""
+    try:
+        import ctypes
+        import signal
+        ctypes.CDLL("libc.so.6", use_errno=True).prctl(1, int(signal.SIGKILL))
+    except Exception:
+        pass
+
+
 def main():
+    die_with_parent()
+    if os.getppid() == 1:
+        return 0
     proto = os.fdopen(os.dup(1), "w", buffering=1)
     devnull = os.open(os.devnull, os.O_WRONLY)
     os.dup2(devnull, 1)
